@@ -114,7 +114,7 @@ func genKnobs(rt *rapid.T) SimKnobs {
 // genTape draws the scheduling tape: mostly zeros (keep running the current
 // task), with a per-run density of non-zero entries (swarm style).
 func genTape(rt *rapid.T, maxLen int) []int {
-	density := rapid.SampledFrom([]int{0, 2, 4, 8, 16, 40}).Draw(rt, "tape_density") // per 64
+	density := rapid.SampledFrom([]int{0, 2, 4, 8, 16, 40, 64}).Draw(rt, "tape_density") // per 64; 64 = a scheduling choice at every step
 	n := rapid.IntRange(0, maxLen).Draw(rt, "tape_len")
 	tape := make([]int, n)
 	if density == 0 {
